@@ -1,23 +1,36 @@
 #!/bin/bash
 # One-time setup after a fresh restore (offline): translate, build the whole Coq
 # development (full .vo build), extract + build the OCaml model driver, and
-# pre-build the Rust harness so that the per-property checks are incremental.
-set -e
+# pre-build the harnesses so that the per-property checks are incremental.
 cd "$(dirname "$0")/.."
 export CARGO_NET_OFFLINE=true
-python3 tools/gen_coq.py > build_gen.log 2>&1 || { cat build_gen.log; echo "translator reported errors (continuing)"; }
-rm -f build_gen.log
 mkdir -p build
-( cd coq && coq_makefile -f _CoqProject -o Makefile > /dev/null && timeout 3000 make -j16 2>&1 | tail -40 )
-tools/build_model.sh || echo "model driver build failed (checks will report it)"
-python3 - <<'PY'
-import sys
+python3 tools/gen_coq.py > build/gen.log 2>&1 || { cat build/gen.log; echo "translator reported errors (continuing)"; }
+# harness builds in the background while Coq compiles
+python3 - <<'PY' > build/harness_build.log 2>&1 &
+import sys, concurrent.futures
 sys.path.insert(0, "tools")
 import verif
-for flavour, profile in [("default", "debug"), ("default", "release")]:
-    b, out = verif.cargo_build(flavour, profile)
-    print("harness", flavour, profile, "->", b)
-    if b is None:
-        print(out[-2000:])
+jobs = [("rs", "default", "debug"), ("rs", "default", "release"), ("rs", "prefer_intrinsics", "debug"),
+        ("rs", "prefer_intrinsics", "release"), ("rs", "pure", "debug"), ("rs", "pure", "release"), ("b3sum", "default", "debug")]
+def one(j):
+    crate, flavour, profile = j
+    b, out = verif.cargo_build(flavour, profile, crate=crate)
+    return j, b, (out[-1500:] if b is None else "")
+with concurrent.futures.ThreadPoolExecutor(max_workers=3) as ex:
+    for j, b, out in ex.map(one, jobs):
+        print("harness", j, "->", b, out)
+try:
+    import charness
+    for v in ("asm", "intr", "tbbseam"):
+        b, log = charness.build(v)
+        print("c harness", v, "->", b)
+except Exception as e:
+    print("c harness build problem:", e)
 PY
+HPID=$!
+( cd coq && coq_makefile -f _CoqProject -o Makefile > /dev/null 2>&1 && timeout 3400 make -k -j12 2>&1 | grep -v "^Closed under\|^COQC\|^COQDEP" | tail -30 )
+tools/build_model.sh || echo "model driver build failed (checks will report it)"
+wait $HPID
+cat build/harness_build.log | tail -15
 echo setup done
